@@ -72,6 +72,16 @@ pub fn run(cx: &mut Ctx, args: &Args, rng: &mut Rng) -> i32 {
                 observe(cx, &data, &mut seen);
                 cx.many(id, inst.as_ref(), dir, Shape::ALL[r.below(3)], &data, r.below(16), r.below(16), None);
             }
+            // long batches (block counters wider than a byte / a 16-bit word): few distinct values, period coprime to the widths
+            for &n in &[257 + r.below(64), args.num("huge", 0) as usize] {
+                if n == 0 {
+                    continue;
+                }
+                let vals: Vec<Vec<u8>> = (0..5).map(|_| r.bytes(bs)).collect();
+                let data: Vec<u8> = (0..n).flat_map(|j| vals[j % 5].clone()).collect();
+                observe(cx, &data, &mut seen);
+                cx.many(id, inst.as_ref(), dir, Shape::ALL[r.below(3)], &data, r.below(16), r.below(16), None);
+            }
             // every (input offset, output offset) pair
             if offsets_all {
                 let n = par + 1;
